@@ -101,7 +101,7 @@ def coq_gate() -> list[str]:
     """grep gate: no Admitted/Axiom/... anywhere in the development."""
     bad = []
     listed = [COQ / l.strip() for l in (COQ / "_CoqProject").read_text().splitlines() if l.strip().endswith(".v")]
-    for p in sorted(set(listed) | set((COQ / "props").glob("*.v"))):
+    for p in sorted(set(listed) | set(COQ.rglob("*.v"))):
         if not p.exists():
             bad.append(f"{p.relative_to(VERIF)}: listed in _CoqProject but missing")
             continue
@@ -147,10 +147,15 @@ def coq_build(timeout=1800) -> tuple[bool, str]:
 
 
 def workdir(tag: str) -> Path:
+    """Scratch directory for generated case files; removed at exit unless VERIF_KEEP_WORK is set."""
+    import atexit
+
     d = WORK / f"{tag}-{os.getpid()}"
     if d.exists():
         shutil.rmtree(d)
     d.mkdir(parents=True)
+    if not os.environ.get("VERIF_KEEP_WORK"):
+        atexit.register(shutil.rmtree, d, True)
     return d
 
 
